@@ -2,6 +2,7 @@ package props
 
 import (
 	"fmt"
+	"strings"
 
 	"github.com/vicanso/pike/config"
 
@@ -26,13 +27,23 @@ type c01Params struct {
 
 func c01Scenario(c *Ctx, p c01Params) Sched {
 	cfg := env.BasicConfig(config.CacheConfig{})
+	cfgKey := "basic"
+	if strings.HasPrefix(p.Prologue, "store-") {
+		cfg = env.BasicConfig(config.CacheConfig{Store: "fault://c01"})
+		cfgKey = "c01store"
+	}
 	return Sched{
 		Name:     p.Name,
 		Opt:      vsched.Options{Ticks: []int64{1, int64(p.T) + 1}},
 		Bounds:   p.Bounds,
 		MaxExecs: p.MaxExecs,
 		Setup: func() ([]func(), func(*vsched.Exec) *vsched.Violation, func() string) {
-			e := getEnv(cfg, "basic")
+			if cfgKey != "basic" {
+				st := env.NewFaultStore()
+				st.HonorTTL = p.Prologue != "store-lazy-expired-record" // lazy: hands back records past their TTL
+				st.Register("fault://c01")
+			}
+			e := getEnv(cfg, cfgKey)
 			freshCaches(cfg)
 			vtime.Set(vtime.Base)
 			mode := "cacheable"
@@ -45,6 +56,15 @@ func c01Scenario(c *Ctx, p c01Params) Sched {
 			switch p.Prologue {
 			case "expired-hit":
 				e.Do(env.Req{URI: "/k1", Rid: "pro"})
+				vtime.Add(int64(p.T) + 1)
+			case "store-fresh-record":
+				// the record exists only in the store (memory lost), still fresh
+				e.Do(env.Req{URI: "/k1", Rid: "pro"})
+				freshCaches(cfg)
+			case "store-lazy-expired-record":
+				// the record exists only in a store that does not expire it itself, and is past its lifetime
+				e.Do(env.Req{URI: "/k1", Rid: "pro"})
+				freshCaches(cfg)
 				vtime.Add(int64(p.T) + 1)
 			case "expired-hfp":
 				mode = "uncacheable"
@@ -136,6 +156,8 @@ func init() {
 			{Name: "burst2x2-other", Threads: 2, Reqs: 2, Other: true, T: 1, Bounds: vsched.Bounds{Preempt: 2, Tick: 1, Data: -1, Total: 2}},
 			{Name: "burst3-expired-hit", Threads: 3, Reqs: 1, T: 1, Prologue: "expired-hit", Bounds: vsched.Bounds{Preempt: 2, Tick: 1, Data: -1, Total: 2}},
 			{Name: "burst3-expired-hfp", Threads: 3, Reqs: 1, T: 1, Prologue: "expired-hfp", Bounds: vsched.Bounds{Preempt: 2, Tick: 1, Data: -1, Total: 2}},
+			{Name: "burst3-record-only-in-store", Threads: 3, Reqs: 1, T: 5, Prologue: "store-fresh-record", Bounds: vsched.Bounds{Preempt: 2, Tick: 0, Data: -1, Total: 2}},
+			{Name: "burst3-expired-record-in-lazy-store", Threads: 3, Reqs: 1, T: 1, Prologue: "store-lazy-expired-record", Bounds: vsched.Bounds{Preempt: 2, Tick: 0, Data: -1, Total: 2}},
 		}
 		if c.Thorough() {
 			q = []c01Params{
@@ -145,6 +167,8 @@ func init() {
 				{Name: "burst3-expired-hit", Threads: 3, Reqs: 1, T: 1, Prologue: "expired-hit", Bounds: vsched.Bounds{Preempt: 3, Tick: 2, Data: -1, Total: 3}},
 				{Name: "burst3-expired-hfp", Threads: 3, Reqs: 1, T: 1, Prologue: "expired-hfp", Bounds: vsched.Bounds{Preempt: 3, Tick: 2, Data: -1, Total: 3}},
 				{Name: "burst5-cold", Threads: 5, Reqs: 1, T: 2, Bounds: vsched.Bounds{Preempt: 1, Tick: 1, Data: -1, Total: 2}},
+				{Name: "burst3-record-only-in-store", Threads: 3, Reqs: 1, T: 5, Prologue: "store-fresh-record", Bounds: vsched.Bounds{Preempt: 3, Tick: 1, Data: -1, Total: 3}},
+				{Name: "burst3-expired-record-in-lazy-store", Threads: 3, Reqs: 1, T: 1, Prologue: "store-lazy-expired-record", Bounds: vsched.Bounds{Preempt: 3, Tick: 1, Data: -1, Total: 3}},
 			}
 		}
 		for _, p := range q {
